@@ -94,6 +94,9 @@ def maybe_trace(rng, scn, p=0.4):
 # ---------------------------------------------------------------- profiles
 
 
+RAISE_KINDS = ["UserError", "UserError", "SystemExit", "KeyboardInterrupt"]   # how a block is left
+
+
 def add_outpre(rng, scn):
     """Dependencies hidden behind a pre-task attached to another upstream's output wrapper."""
     tasks = scn["tasks"]
@@ -258,7 +261,31 @@ def gen_C07(rng, tier):
     return scn
 
 
+def gen_C08_contended(rng, tier):
+    """Several schedulers with jobs of their own (disjoint sets, no dependencies) that all compete
+    for one small file token, with line-level pre-emption: the ordinary multi-experiment use."""
+    scn = base(rng, 4, 8, p_dep=0.0)
+    n = len(scn["tasks"])
+    total = rng.randint(1, 3)
+    scn["tokens"] = [{"kind": "file", "total": total}]
+    for t in scn["tasks"]:
+        t["tok"] = [[0, rng.randint(1, total)]]
+    nproc = rng.choice([2, 2, 3])
+    order = list(range(n))
+    rng.shuffle(order)
+    for i in range(nproc):
+        spec = {"xp": "x%d" % i, "plan": simple_plan(rng, n, subset=sorted(order[i::nproc]), waits=rng.random() < 0.3) + [["xpwait"], ["linger"]]}
+        if i > 0 and rng.random() < 0.4:
+            spec["start"] = {"after_steps": rng.randint(0, 40)}
+        scn["procs"].append(spec)
+    scn["cfg"]["trace"] = True
+    scn["cfg"]["preempt"] = rng.choice([12, 25, 50])
+    return scn
+
+
 def gen_C08(rng, tier):
+    if rng.random() < 0.4:
+        return gen_C08_contended(rng, tier)
     scn = base(rng, 3, 7, p_dep=0.3)
     n = len(scn["tasks"])
     nproc = rng.choice([1, 1, 2, 2, 3])
@@ -371,7 +398,7 @@ def gen_C16(rng, tier):
         spec = {"xp": "x0", "plan": plan}
         r = rng.random()
         if r < 0.2:
-            plan.insert(rng.randint(0, len(plan)), ["raise"])
+            plan.insert(rng.randint(0, len(plan)), ["raise", rng.choice(RAISE_KINDS)])
         elif r < 0.55:
             c = rng.random()
             if c < 0.3:
@@ -417,7 +444,10 @@ def gen_filter(rng, depth=0):
     if kind in ("in", "notin"):
         return [kind, var, rng.sample(vals, rng.randint(1, min(2, len(vals))))]
     v = rng.choice(vals)
-    return ["re", var, rng.choice([v, v[:1] + ".*", ".*" + v[-1:], "(" + v + "|zz)"])]
+    # (escapes and character classes: the pattern reaches `re` exactly as written between the quotes)
+    return ["re", var, rng.choice([v, v[:1] + ".*", ".*" + v[-1:], "(" + v + "|zz)",
+                                   v.replace(".", "\\."), v[:1] + "\\w*", "\\w+\\.\\w+\\." + v.split(".")[-1] if "." in v else "\\w",
+                                   "[^\\d]" + v[1:], v[:-1] + "\\S"])]
 
 
 def gen_cli_ops(rng, xps):
@@ -455,7 +485,7 @@ def gen_C19(rng, tier):
         spec = {"xp": xps[i % len(xps)] if rng.random() < 0.6 else rng.choice(xps), "plan": plan}
         r = rng.random()
         if r < 0.15:
-            plan.insert(rng.randint(0, len(plan)), ["raise"])
+            plan.insert(rng.randint(0, len(plan)), ["raise", rng.choice(RAISE_KINDS)])
         elif r < 0.35:
             spec["crash"] = crash_spec(rng, sigs=("KILL", "TERM"))
         if i > 0:
@@ -577,4 +607,9 @@ def generate(prop, seed, tier="quick"):
     scn = PROFILES[profile](rng, tier)
     scn["prop"] = prop
     scn["profile"] = profile
+    # fault "stall" (slow thread / slow process), drawn from a generator of its own so that the
+    # workloads themselves are the same with and without it
+    srng = random.Random(("stall", prop, seed).__repr__())
+    if srng.random() < 0.3:
+        scn.setdefault("cfg", {})["stall"] = srng.choice([12, 30, 80])
     return scn
